@@ -20,6 +20,8 @@
 (*   pardot_f (general data) r1 = r2 = r3 bit for bit (same configuration), equal to   *)
 (*            the sequential product and to a double-double reference up to            *)
 (*            reassociation: at most 8 units of n * eps * sum|x_i y_i|.                *)
+(*   pardot_inf (strictly positive finite data whose exact sum overflows) every call  *)
+(*            returns +inf: up to reassociation nothing else is possible.              *)
 (* The chunk formula itself is not demanded (any in-order partition gives these        *)
 (* values).  The observed worker count is a fact about the environment, not an output  *)
 (* of the code: whether the affinity produced the requested count is accounted for by  *)
@@ -37,6 +39,7 @@ DotFrom(x, y, k) == IF k > Len(x) THEN 0 ELSE x[k] * y[k] + DotFrom(x, y, k + 1)
 Dot(x, y) == DotFrom(x, y, 1)
 
 \* (aliased calls on exact data are run once: their repetition is the two-object call `two`)
+PlusInf == "7ff0000000000000"
 Repeatable(e) == Has(e, "r2") => (e.r1 = e.r2 /\ e.r2 = e.r3)
 WellFormed(e) == e.nt >= 1 /\ e.len >= 0
 ExactValue(e) == IF Has(e, "x")
@@ -49,6 +52,12 @@ Explained(e) ==
   CASE e.op = "pardot" -> /\ ~e.panic /\ Repeatable(e) /\ e.r1 = e.d /\ e.ri = e.di /\ ExactValue(e) /\ WellFormed(e)
                           /\ (Has(e, "prev") => e.prev = e.r1) /\ (Has(e, "two") => e.two = e.r1)
     [] e.op = "pardot_f" -> ~e.panic /\ Repeatable(e) /\ e.units <= 8 /\ e.uref <= 8 /\ WellFormed(e) /\ (Has(e, "two") => e.two = e.r1)
+    \* strictly positive finite data, every single product finite, at least two products of about 1e308: the exact sum overflows,
+    \* and so does every reassociation of it (partial sums of non-negative finite terms are non-negative or +inf, never NaN):
+    \* the three repetitions, the sequential dot and the aliased calls are all +inf, bit for bit
+    [] e.op = "pardot_inf" -> /\ ~e.panic /\ WellFormed(e) /\ e.allpos /\ e.prodfinite /\ e.nbig >= 2
+                              /\ e.r1 = PlusInf /\ e.r2 = PlusInf /\ e.r3 = PlusInf /\ e.d = PlusInf
+                              /\ (Has(e, "a1") => e.a1 = PlusInf /\ e.ad = PlusInf)
     [] OTHER -> FALSE
 
 Init == l = 1 /\ TLCSet(1, 0)
